@@ -6,6 +6,10 @@ FUNCTIONS = [
     'circus.watcher:Watcher.spawn_process',
     'circus.watcher:Watcher._start',
     'circus.watcher:Watcher.manage_processes',
+    # a signal delivered to a worker by the termination path is announced by a kill event for its pid
+    'circus.watcher:Watcher.send_signal_process',
+    'circus.watcher:Watcher.send_signal',
+    'circus.watcher:Watcher.call_hook',
 ]
 LEMMAS = []
 FRAMES = [
@@ -16,8 +20,8 @@ FRAMES = [
 ASSUMPTIONS = ['A-PY', 'T-KERNEL wait-status layout (Linux)', 'T-PSUTIL', 'A-ZMQSEND', 'A-HOOKPURE', 'A-PIDREUSE']
 TRUSTED = []
 NOT_DECIDED = ['PUB/SUB delivery', 'event payload times',
-               'kill events for workers terminated by manage_processes / remove_expired_processes (kill_process promises '
-               'the signals, not the published kill event)']
+               'kill events at the kill_process level: a worker that is already gone (NoSuchProcess) is "terminated" without a '
+               'kill event, and a before_signal hook returning false suppresses the signal but not the kill event (candidate F-26)']
 DESIGN_REF = 'DESIGN.md section 8, C09'
 TECHNIQUE = 'contract-based deductive verification (ghost event logs attached at the real notify_event calls; wait-status arithmetic)'
 LEVEL_TEXT = ('reap_process publishes exactly one reap event per adopted pid with exit_code equal to the decoded '
